@@ -79,6 +79,19 @@ def directed():
         case("foo", [fn("g3", {"a": DD(STR, TV(INT)), "b": IT(T()), "c": DD(A, L(B))}, TY(U(A, B)))], "repr route, user classes"),
         case("foo", [fn("f1", {"a": INT, "b": STR}), fn("f2", {"a": U(INT, NONE), "b": ANY, "c": BAZ}),
                      fn("K.m1", {"a": L(INT), "b": U(STR, NONE)}, BOOL)], "None defaults"),
+        # a `= None` default whose annotation is the ONLY reason the module stub needs `Optional`
+        # (render_parameter wraps in Optional[...]; get_imports_for_signature must import it): Any, class, Union, generic
+        case("foo", [fn("f1", {"a": INT, "b": ANY})], "None default only Optional: Any"),
+        case("foo", [fn("f1", {"b": ANY})], "None default only Optional: Any, alone"),
+        case("utils", [fn("K.m1", {"a": STR, "b": ANY}, INT), fn("f0", {"a": ANY}, ANY)], "None default only Optional: Any, method"),
+        case("pkg", [fn(LONG, {"first_parameter": INT, "second_parameter": ANY})], "None default only Optional: Any, wrapped"),
+        case("foo", [fn("f1", {"a": INT, "b": BAZ})], "None default only Optional: own class"),
+        case("foo", [fn("f1", {"a": INT, "b": A})], "None default only Optional: class"),
+        case("foo", [fn("f1", {"a": INT, "b": U(INT, STR)})], "None default only Optional: Union"),
+        case("foo", [fn("f1", {"a": INT, "b": L(ANY)}, D(STR, ANY))], "None default only Optional: generic"),
+        case("foo", [fn("f1", {"a": INT, "b": NONE})], "None default: NoneType"),
+        case("foo", [fn("f1", {"a": ANY, "b": U(ANY, NONE)})], "None default: already Optional[Any]"),
+        case("foo", [fn("f1", {"a": INT})], "None default: unannotated"),
         case("foo", [fn(LONG, {"first_parameter": D(STR, L(A)), "second_parameter": T(B, INT)}, U(A, B, NONE))], "wrapped"),
         case("utils", [fn(LONG, {"first_parameter": B, "second_parameter": B}, B)], "wrapped, single after strip"),
         # --- TypedDicts at every container position ---
@@ -100,6 +113,23 @@ def directed():
         case("foo", [fn("f0", {"a": TD({"x": BAZ})})], "x:td field own class"),
     ]
     return out
+
+
+def CU(*ts):
+    """Union with a canonical member order (flattened, deduplicated, sorted): within one random case two unions with the
+    same member set then have the same order, so typing's ==-keyed parametrisation cache cannot swap members between
+    the traced type and an alias the renderer builds later (Optional[...] for a None default)."""
+    import json
+    flat = []
+    for t in ts:
+        flat += t[1] if t[0] == "union" else [t]
+    seen, out = set(), []
+    for t in sorted(flat, key=lambda x: json.dumps(x, sort_keys=True)):
+        k = json.dumps(t, sort_keys=True)
+        if k not in seen:
+            seen.add(k)
+            out.append(t)
+    return out[0] if len(out) == 1 else ["union", out]
 
 
 class Gen:
@@ -160,9 +190,9 @@ class Gen:
         if k == "tuplevar":
             return TV(sub())
         if k == "union":
-            return U(*[sub() for _ in range(self.rnd.choice([2, 2, 3]))])
+            return CU(*[sub() for _ in range(self.rnd.choice([2, 2, 3]))])
         if k == "opt":
-            return U(sub(), NONE)
+            return CU(sub(), NONE)
         if k == "gen":
             return G(sub(), NONE, self.rnd.choice([NONE, INT, sub()]))
         if k == "iter":
@@ -196,8 +226,13 @@ class Gen:
         for key in keys:
             params, has_self = FUNC_SHAPES[key]
             args = {}
-            for n, _ in params[1 if has_self else 0:]:
-                if rnd.random() < 0.85:
+            for n, d in params[1 if has_self else 0:]:
+                if d == 1 and rnd.random() < 0.35:
+                    # a None default: the Optional[...] wrapping and its import; Any / class / Union / plain generic
+                    k = rnd.random()
+                    args[n] = (ANY if k < 0.4 else self.leaf(classes) if k < 0.6
+                               else CU(self.leaf(classes), self.rnd.choice(BUILTINS)) if k < 0.8 else L(ANY))
+                elif rnd.random() < 0.85:
                     args[n] = self.ty(rnd.choice([0, 1, 2, 2, 3]), classes, mode)
             ret = self.ty(rnd.choice([0, 1, 2]), classes, mode) if rnd.random() < 0.6 else None
             yld = self.ty(rnd.choice([0, 1]), classes, mode) if rnd.random() < 0.25 else None
